@@ -1,12 +1,12 @@
 (* C19 - Comparisons and membership tests match CPython.
    Only statements; proofs live in Proof/P_Cmp.v (cascades, FlattenInListTransform) and
    Proof/P_CmpSw.v (SwitchTransform), Proof/P_CmpInt.v (PyObjectCompare on two ints),
-   Proof/P_CmpFloat.v (PyObjectCompare on a float and an int).
+   Proof/P_CmpFloat.v + Proof/P_CmpFloatQ.v (PyObjectCompare on a float and an int).
    Models: Model/M_Cmp.v, Model/M_CmpInt.v, Model/M_CmpFloat.v.  In every model function the
    boolean flag selects the code as it is (false) or the proposed repair (true). *)
 From Coq Require Import ZArith List Bool.
 From CyVerif Require Import Lib.CInt Lib.PyLong Model.M_Cmp Proof.P_Cmp Proof.P_CmpSw.
-From CyVerif Require Import Model.M_CmpInt Proof.P_CmpInt Model.M_CmpFloat Proof.P_CmpFloat.
+From CyVerif Require Import Model.M_CmpInt Proof.P_CmpInt Model.M_CmpFloat Proof.P_CmpFloat Proof.P_CmpFloatQ.
 Import ListNotations.
 Open Scope Z_scope.
 
